@@ -114,7 +114,7 @@ theorem groupLexemes_wfLex (g : List Tok) (h : wfToks g = true) :
     rcases hl with rfl | hl
     · cases t with
       | fn b => simp [Tok.simple] at hs
-      | int v => rfl
+      | int v => simpa [simpleLex, wfLex, wfTok] using hwf.1
       | str s => simpa [simpleLex, wfLex, wfTok] using hwf.1
       | quoted n =>
         have := hwf.1
